@@ -8,6 +8,7 @@ import (
 	"github.com/orda-io/orda/client/pkg/model"
 	"github.com/orda-io/orda/client/pkg/operations"
 	"github.com/orda-io/orda/client/pkg/vhook"
+	"sync"
 )
 
 // WiredDatatype implements the datatype features related to the synchronization with Orda server
@@ -17,6 +18,10 @@ type WiredDatatype struct {
 	checkPoint  *model.CheckPoint
 	localBuffer []*model.Operation
 	appliedAt   map[string]uint64 // per origin client: the clock of the newest of its operations applied here
+	// wiredMutex guards checkPoint, localBuffer and appliedAt: the application's goroutines
+	// append transactions to the buffer while the goroutines that sync the datatype read it
+	// and move the checkpoint.
+	wiredMutex sync.Mutex
 }
 
 // NewWiredDatatype creates a new wiredDatatype
@@ -75,6 +80,8 @@ func (its *WiredDatatype) ReceiveRemoteModelOperations(ops []*model.Operation, o
 
 // CreatePushPullPack creates a PushPullPack
 func (its *WiredDatatype) CreatePushPullPack() *model.PushPullPack {
+	its.wiredMutex.Lock()
+	defer its.wiredMutex.Unlock()
 	seq := its.checkPoint.Cseq
 	modelOps := its.getModelOperations(seq + 1)
 	cp := &model.CheckPoint{
@@ -230,11 +237,16 @@ func (its *WiredDatatype) ApplyPushPullPack(ppp *model.PushPullPack) {
 	var oldState, newState model.StateOfDatatype
 	var errs errors.OrdaError = &errors.MultipleOrdaErrors{}
 	var opList []interface{}
+	its.wiredMutex.Lock()
 	err := its.checkOptionAndError(ppp)
-	if err == nil {
+	accepted := err == nil
+	if accepted {
 		its.excludeDuplicatedOperations(ppp)
 		its.syncCheckPoint(ppp.CheckPoint)
 		oldState, newState, err = its.updateStateOfDatatype(ppp)
+	}
+	its.wiredMutex.Unlock()
+	if accepted {
 		if err != nil {
 			errs = errs.Append(err)
 		}
@@ -270,9 +282,11 @@ func (its *WiredDatatype) callHandlers(
 // DeliverTransaction delivers the transaction if needed
 func (its *WiredDatatype) DeliverTransaction(transaction []iface.Operation) {
 
+	its.wiredMutex.Lock()
 	for _, op := range transaction {
 		its.localBuffer = append(its.localBuffer, op.ToModelOperation())
 	}
+	its.wiredMutex.Unlock()
 	if its.wire == nil && its.ctx.Client.SyncType != model.SyncType_REALTIME {
 		return
 	}
@@ -282,10 +296,16 @@ func (its *WiredDatatype) DeliverTransaction(transaction []iface.Operation) {
 
 // NeedPull verifies if the datatype needs to pull
 func (its *WiredDatatype) NeedPull(sseq uint64) bool {
+	its.wiredMutex.Lock()
+	defer its.wiredMutex.Unlock()
 	return its.checkPoint.Sseq < sseq
 }
 
 // NeedPush verifies if the datatype needs to push
 func (its *WiredDatatype) NeedPush() bool {
-	return its.checkPoint.Cseq < its.opID.GetSeq()
+	its.wiredMutex.Lock()
+	defer its.wiredMutex.Unlock()
+	// the buffered operations beyond the checkpoint (the operation id itself belongs to the
+	// application's goroutines and is ahead of the buffer only while a transaction is open)
+	return len(its.getModelOperations(its.checkPoint.Cseq+1)) > 0
 }
